@@ -1,4 +1,6 @@
-(* Lease cluster: write_block.lua as translated -- what a node does on one invocation. *)
+(* Lease cluster: write_block.lua as translated, in three pieces: the eight statements before the
+   scan (identity check, fencing check, self-heal of the epoch, XREVRANGE), the scan loop
+   (ProofsNode.wb_loop_exec) and the four statements after it (XADD, XTRIM, PEXPIRE, return). *)
 From Coq Require Import ZifyBool ZifyN.
 From FC Require Import Lease.Adapter Lease.ProofsStr Lease.ProofsRO Lease.ProofsNode.
 Open Scope str_scope.
@@ -17,25 +19,152 @@ Ltac dmatch2 :=
   | |- context [if ?x then _ else _] => inner2 x
   end.
 
+Ltac sym1 := cbn -[dec tonum N.add N.sub N.leb N.ltb N.eqb N.min N.div N.modulo N.mul Z.of_N N.of_nat
+                  skipn N.to_nat live put del node_epoch epoch_wf frame wb_loop wb_suffix node_stream].
+
+Definition wb_pre : stmt := fold_right SSeq SSkip wb_prefix.
+
+Lemma exec_seqs : forall cx l R en nd,
+  exec_stmt cx (fold_right SSeq R l) en nd =
+  match exec_stmt cx (fold_right SSeq SSkip l) en nd with
+  | (CNorm, en1, nd1) => exec_stmt cx R en1 nd1
+  | r => r
+  end.
+Proof.
+  induction l as [|a l IH]; intros; cbn [fold_right exec_stmt]; [reflexivity|].
+  destruct (exec_stmt cx a en nd) as [[c e1] n1]. destruct c; auto.
+Qed.
+
+Definition wb_cx (e o p : N) (d : str) (ttl ml : N) : ctx :=
+  mkCtx [stream_key; epoch_key; lease_key] [dec e; owner_str o; dec p; d; dec ttl; dec ml].
+
+Definition pre_env (o p : N) (nd : node) : env :=
+  [VNum (Z.of_N (node_epoch nd)); VStr (owner_str o); VNum (Z.of_N p);
+   VTab (map reply_to_val (map entry_reply (rev (node_stream nd)))); VBool false;
+   VNil; VNil; VNil; VNil; VNil; VNil].
+
+(* the node after the prefix: untouched, or the epoch raised to the caller's *)
+Definition healed (e : N) (nd nd' : node) : Prop :=
+  nd' = nd \/
+  (node_epoch nd < e /\ nd' = put nd epoch_key (mkK (DStr (dec e)) None)).
+
+Lemma wb_pre_exec : forall e o p d ttl ml nd, epoch_wf nd ->
+  let '(c, en, nd') := exec_stmt (wb_cx e o p d ttl ml) wb_pre (repeat VNil 11) nd in
+  healed e nd nd' /\
+  (c = CNorm -> node_owner nd = Some (owner_str o) /\ node_epoch nd <= e /\ node_epoch nd' = e /\
+                en = pre_env o p nd) /\
+  (forall v, c = CRet v -> exists m, v = VErrT m) /\ c <> CBrk.
+Proof.
+  intros e o p d ttl ml nd EW.
+  assert (HE : (live nd epoch_key = None /\ node_epoch nd = 0) \/
+               exists v, live nd epoch_key = Some (mkK (DStr v) None) /\
+                         node_epoch nd = match tonum v with Some n => n | None => 0 end).
+  { unfold epoch_wf in EW. unfold node_epoch, live.
+    destruct (n_kv nd epoch_key) as [[[v|s] [t|]]|]; try contradiction; cbn; eauto. }
+  unfold pre_env, node_stream, node_owner.
+  destruct HE as [[Hle Eep] | (ev & Hle & Eep)].
+  all: unfold wb_cx, wb_pre, wb_prefix; sym1.
+  all: repeat (first [ progress (unfold stream_of; rewrite ?live_put, ?tonum_dec, ?Hle, ?tonum_zero; sym1) | dmatch2 ]).
+  all: repeat match goal with H : tonum ?v = _, E : node_epoch _ = match tonum ?v with Some _ => _ | None => _ end |- _ => rewrite H in E end.
+  all: rewrite ?Z.gtb_ltb in *.
+  all: try match goal with H : negb (str_eqb ?a ?b) = false |- _ =>
+         apply negb_false_iff in H; apply str_eqb_eq in H; subst a end.
+  all: (split; [ first [ left; reflexivity | right; split; [timeout 20 lia | reflexivity] ] | ]).
+  all: (split; [ intro Hc; try discriminate Hc | ]).
+  all: try (split; [ intros v Hv; try discriminate Hv; inversion Hv; eexists; reflexivity | discriminate ]).
+  all: rewrite ?ne_put_epoch, ?Eep.
+  all: try (split; [reflexivity|]).
+  all: try (split; [timeout 20 lia|]).
+  all: try (split; [timeout 20 lia|]).
+  all: try reflexivity.
+Qed.
+
 Ltac sym2 := cbn -[dec tonum N.add N.sub N.leb N.ltb N.eqb N.min N.div N.modulo N.mul Z.of_N N.of_nat
                   skipn N.to_nat live put del node_epoch epoch_wf frame wb_loop wb_suffix env_set env_get].
-Ltac sym1 := cbn -[dec tonum N.add N.sub N.leb N.ltb N.eqb N.min N.div N.modulo N.mul Z.of_N N.of_nat
-                  skipn N.to_nat live put del node_epoch epoch_wf frame wb_loop wb_suffix].
 
 Lemma n_now_put : forall X k e, n_now (put X k e) = n_now X. Proof. reflexivity. Qed.
 Lemma n_now_del : forall X k, n_now (del X k) = n_now X. Proof. reflexivity. Qed.
 Lemma n_trim_put : forall X k e, n_trim (put X k e) = n_trim X. Proof. reflexivity. Qed.
 Lemma n_trim_del : forall X k, n_trim (del X k) = n_trim X. Proof. reflexivity. Qed.
-#[local] Hint Rewrite ns_put_lease ns_del_lease ns_put_epoch ns_put_stream ne_put_lease ne_del_lease
+#[export] Hint Rewrite ns_put_lease ns_del_lease ns_put_epoch ns_put_stream ne_put_lease ne_del_lease
   ne_put_stream ne_put_epoch n_now_put n_now_del n_trim_put n_trim_del : nodeproj.
 
-Ltac wf_goal :=
-  repeat first [ apply sw_put_lease | apply sw_del_lease | apply sw_put_epoch | apply sw_put_stream
-               | apply ew_put_lease | apply ew_del_lease | apply ew_put_stream | apply ew_put_epoch
-               | assumption ].
+(* the stream key holds a stream without expiry, or nothing *)
+Definition stream_ok (nd : node) : Prop :=
+  match n_kv nd stream_key with
+  | None => True
+  | Some (mkK (DStream _) None) => True
+  | _ => False
+  end.
+
+Lemma wb_suffix_exec : forall e o p d ttl ml en nd ow ex,
+  live nd lease_key = Some (mkK (DStr ow) ex) -> stream_ok nd ->
+  exists id en' nd' ms sq k,
+    exec_stmt (wb_cx e o p d ttl ml) wb_suffix en nd = (CRet (VStr id), en', nd') /\
+    node_stream nd' = skipn k (node_stream nd ++ [mkEntry ms sq (wf_fields p d e (n_now nd / 1000))]) /\
+    (n_trim nd = 0 -> k = 0%nat) /\
+    n_kv nd' epoch_key = n_kv nd epoch_key /\ n_now nd' = n_now nd /\ n_trim nd' = n_trim nd /\ stream_ok nd'.
+Proof.
+  intros e o p d ttl ml en nd ow ex Hlock SO.
+  assert (HS : (live nd stream_key = None /\ node_stream nd = []) \/
+               exists s1, live nd stream_key = Some (mkK (DStream s1) None) /\ node_stream nd = s_entries s1).
+  { unfold stream_ok in SO. unfold node_stream, live.
+    destruct (n_kv nd stream_key) as [[[v|s] [t|]]|]; try contradiction; cbn; eauto. }
+  destruct HS as [[Hlive Ees] | (s1 & Hlive & Ees)].
+  all: unfold wb_cx, wb_suffix; sym2.
+  all: repeat (first [ progress (unfold stream_of; rewrite ?live_put, ?live_del, ?tonum_dec, ?Hlive, ?Hlock, ?env_get_set_same; sym2) | dmatch2 ]).
+  all: do 6 eexists; (split; [reflexivity|]).
+  all: (split; [ autorewrite with nodeproj; cbn [s_entries]; rewrite Ees; reflexivity | ]).
+  all: (split; [ intro H0; cbn [n_trim put]; rewrite H0, N.min_0_r; reflexivity | ]).
+  all: (split; [reflexivity|]); (split; [reflexivity|]); (split; [reflexivity|]).
+  all: unfold stream_ok, del, put, kv_del, kv_set; cbn; exact Logic.I.
+Qed.
+
+(* ------------------------------------------------------------------------------------ *)
+(* composition *)
+
+Lemma stream_wf_ok : forall nd, stream_wf nd -> stream_ok nd /\ Forall wf_entry (node_stream nd).
+Proof.
+  unfold stream_wf, stream_ok, node_stream, live. intros nd H.
+  destruct (n_kv nd stream_key) as [[[v|s] [t|]]|]; try contradiction; cbn; auto.
+Qed.
+Lemma stream_ok_wf : forall nd, stream_ok nd -> Forall wf_entry (node_stream nd) -> stream_wf nd.
+Proof.
+  unfold stream_wf, stream_ok, node_stream, live. intros nd H F.
+  destruct (n_kv nd stream_key) as [[[v|s] [t|]]|]; try contradiction; cbn in *; auto.
+Qed.
+
+Lemma healed_facts : forall e nd nd1, healed e nd nd1 -> epoch_wf nd ->
+  n_now nd1 = n_now nd /\ n_trim nd1 = n_trim nd /\ epoch_wf nd1 /\ node_epoch nd <= node_epoch nd1 /\
+  node_stream nd1 = node_stream nd /\ live nd1 lease_key = live nd lease_key /\
+  n_kv nd1 stream_key = n_kv nd stream_key.
+Proof.
+  intros e nd nd1 [->|[Hlt ->]] EW.
+  - repeat split; auto. lia.
+  - rewrite ns_put_epoch, ne_put_epoch, live_put. repeat split; auto; try apply ew_put_epoch; try lia.
+Qed.
+
+Lemma epoch_of_kv : forall a b, n_kv a epoch_key = n_kv b epoch_key -> n_now a = n_now b ->
+  node_epoch a = node_epoch b /\ (epoch_wf b -> epoch_wf a).
+Proof.
+  intros a b K N0. unfold node_epoch, epoch_wf, live. rewrite K, N0. split; auto.
+Qed.
+
+Lemma owner_lock : forall nd ow, node_owner nd = Some ow ->
+  exists ex, live nd lease_key = Some (mkK (DStr ow) ex).
+Proof.
+  unfold node_owner. intros nd ow H. destruct (live nd lease_key) as [[[v|s] ex]|]; try discriminate.
+  inversion H; subst. eexists. reflexivity.
+Qed.
+
+Lemma dec_write_err : forall m, dec_write (Some (RErr m)) <> WWritten.
+Proof.
+  intros. cbn. destruct (str_contains "HEIGHT_EXISTS:" m); [discriminate|].
+  destruct (str_contains "FENCING_ERROR:" m); discriminate.
+Qed.
 
 Definition write_post (e o p : N) (d : str) (nd : node) (r : reply) (nd' : node) : Prop :=
-  n_now nd' = n_now nd /\ n_trim nd' = n_trim nd /\ stream_wf nd' /\ epoch_wf nd' /\
+  n_now nd' = n_now nd /\ n_trim nd' = n_trim nd /\ epoch_wf nd' /\ stream_wf nd' /\
   node_epoch nd <= node_epoch nd' /\
   match dec_write (Some r) with
   | WWritten =>
@@ -47,60 +176,58 @@ Definition write_post (e o p : N) (d : str) (nd : node) (r : reply) (nd' : node)
   | _ => node_stream nd' = node_stream nd
   end.
 
-Lemma write_exec : forall e o p d ttl ml nd, stream_wf nd -> epoch_wf nd ->
-  exists r nd', node_exec (CWrite e o p d ttl ml) nd = (r, nd') /\ write_post e o p d nd r nd'.
+Lemma not_written_post : forall e o p d nd r nd1,
+  dec_write (Some r) <> WWritten -> epoch_wf nd -> stream_wf nd -> healed e nd nd1 ->
+  write_post e o p d nd r nd1.
 Proof.
-  intros e o p d ttl ml nd SW EW. unfold node_exec, run_script.
+  intros e o p d nd r nd1 NW EW SW H.
+  destruct (healed_facts e nd nd1 H EW) as (A & B & C & D & E & F & G).
+  unfold write_post. repeat split; auto.
+  - unfold stream_wf in *. rewrite G. assumption.
+  - destruct (dec_write (Some r)); try assumption. contradiction.
+Qed.
+
+Theorem write_exec : forall e o p d ttl ml nd, epoch_wf nd -> stream_wf nd ->
+  write_post e o p d nd (fst (node_exec (CWrite e o p d ttl ml) nd)) (snd (node_exec (CWrite e o p d ttl ml) nd)).
+Proof.
+  intros e o p d ttl ml nd EW SW. unfold node_exec, run_script.
   change (sc_body (cmd_script (CWrite e o p d ttl ml))) with write_block_body.
-  rewrite wb_shape.
-  change (cmd_keys (CWrite e o p d ttl ml)) with [stream_key; epoch_key; lease_key].
-  change (cmd_argv (CWrite e o p d ttl ml)) with [dec e; owner_str o; dec p; d; dec ttl; dec ml].
-  assert (HS : (live nd stream_key = None /\ node_stream nd = []) \/
-               exists s1, live nd stream_key = Some (mkK (DStream s1) None) /\
-                          node_stream nd = s_entries s1 /\ Forall wf_entry (s_entries s1)).
-  { unfold stream_wf in SW. unfold node_stream, live.
-    destruct (n_kv nd stream_key) as [[[v|s] [t|]]|]; try contradiction; cbn; eauto. }
-  assert (HE : (live nd epoch_key = None /\ node_epoch nd = 0) \/
-               exists v, live nd epoch_key = Some (mkK (DStr v) None) /\
-                         node_epoch nd = match tonum v with Some n => n | None => 0 end).
-  { unfold epoch_wf in EW. unfold node_epoch, live.
-    destruct (n_kv nd epoch_key) as [[[v|s] [t|]]|]; try contradiction; cbn; eauto. }
-  destruct HS as [[Hlive Ees] | (s1 & Hlive & Ees & Wes)];
-  destruct HE as [[Hle Eep] | (ev & Hle & Eep)].
-  all: unfold wb_prefix; sym1.
-  all: repeat (first [ progress (unfold stream_of; rewrite ?live_put, ?tonum_dec, ?Hlive, ?Hle, ?tonum_zero; sym1) | dmatch2 ]).
-  all: try match goal with
-    | |- context [exec_stmt ?cx wb_loop [?a0; ?a1; ?a2; VTab ?tb; ?a4; ?a5; ?a6; ?a7; ?a8; ?a9; ?a10] ?nd0] =>
-        let l := lazymatch tb with
-                 | map reply_to_val (map entry_reply ?l) => l
-                 | _ => constr:(@nil entry)
-                 end in
-        let Hl := fresh "Hl" in let en' := fresh "en'" in
-        assert (WL : Forall wf_entry l)
-          by (first [ apply Forall_nil | apply Forall_rev; assumption ]);
-        destruct (wb_loop_exec e o p d ttl ml l WL a0 a1 a5 a6 a7 a8 a9 a10 nd0) as [en' Hl];
-        assert (Hl2 : exec_stmt cx wb_loop [a0; a1; a2; VTab tb; a4; a5; a6; a7; a8; a9; a10] nd0
-                      = ((if scan p (map entry_h l) then CRet (VErrT (exists_msg p)) else CNorm), en', nd0)) by exact Hl;
-        rewrite Hl2; clear Hl Hl2;
-        destruct (scan p (map entry_h l)) eqn:Hscan
-    end.
-  all: unfold wb_suffix; sym2.
-  all: repeat (first [ progress (unfold stream_of; rewrite ?live_put, ?tonum_dec, ?Hlive, ?Hle, ?env_get_set_same; sym2) | dmatch2 ]).
-  all: eexists; eexists; (split; [reflexivity|]).
-  all: unfold write_post, exists_msg.
-  Time all: cbn -[dec tonum N.add N.sub N.leb N.ltb N.eqb N.min N.div N.modulo N.mul Z.of_N N.of_nat
-                  skipn N.to_nat live put del node_epoch epoch_wf stream_wf node_stream node_owner scan].
-  Time all: repeat match goal with H : tonum ?v = _, E : node_epoch _ = match tonum ?v with Some _ => _ | None => _ end |- _ => rewrite H in E end.
-  Time all: try match goal with H : negb (str_eqb ?a ?b) = false |- _ =>
-         apply negb_false_iff in H; apply str_eqb_eq in H; subst a end.
-  Time all: rewrite ?Z.gtb_ltb in *.
-  Time all: (split; [reflexivity|]).
-  Time all: (split; [reflexivity|]).
-  Time all: (split; [wf_goal; try (apply Forall_skipn; try (apply Forall_app; split; [assumption|]);
-                       repeat constructor; apply wf_new) |]).
-  Time all: (split; [wf_goal|]).
-  Time all: autorewrite with nodeproj.
-  Time all: (split; [timeout 10 lia|]).
-  Time all: try (timeout 10 reflexivity).
-  all: idtac "leaf". Show.
-Abort.
+  change (sc_slots (cmd_script (CWrite e o p d ttl ml))) with 11%nat.
+  change (mkCtx (cmd_keys (CWrite e o p d ttl ml)) (cmd_argv (CWrite e o p d ttl ml))) with (wb_cx e o p d ttl ml).
+  rewrite wb_shape, exec_seqs. fold wb_pre.
+  pose proof (wb_pre_exec e o p d ttl ml nd EW) as P.
+  destruct (exec_stmt (wb_cx e o p d ttl ml) wb_pre (repeat VNil 11) nd) as [[c en] nd1].
+  destruct P as (Hh & Hn & Hr & Hb).
+  destruct (stream_wf_ok nd SW) as [SO FW].
+  destruct c.
+  - (* the checks passed *)
+    destruct (Hn eq_refl) as (Ow & Le & Ep & En). subst en.
+    destruct (healed_facts e nd nd1 Hh EW) as (A & B & C & D & E & F & G).
+    cbn [exec_stmt].
+    assert (WL : Forall wf_entry (rev (node_stream nd))) by (apply Forall_rev; assumption).
+    destruct (wb_loop_exec e o p d ttl ml (rev (node_stream nd)) WL
+                (VNum (Z.of_N (node_epoch nd))) (VStr (owner_str o)) VNil VNil VNil VNil VNil VNil nd1) as [en' Hl].
+    unfold wb_cx, pre_env. rewrite Hl. fold (wb_cx e o p d ttl ml).
+    destruct (scan p (map entry_h (rev (node_stream nd)))) eqn:Hscan.
+    + cbn [fst snd val_to_reply]. apply not_written_post; auto. apply dec_write_err.
+    + destruct (owner_lock nd (owner_str o) Ow) as [ex Hlock]. rewrite <- F in Hlock.
+      assert (SO1 : stream_ok nd1) by (unfold stream_ok in *; rewrite G; assumption).
+      destruct (wb_suffix_exec e o p d ttl ml en' nd1 (owner_str o) ex Hlock SO1)
+        as (id & en2 & nd2 & ms & sq & k & Hx & Hs & Hk & Hkv & Hnow & Htr & SO2).
+      rewrite Hx. cbn [fst snd val_to_reply dec_write].
+      destruct (epoch_of_kv nd2 nd1 Hkv Hnow) as [Ee Ew].
+      unfold write_post. cbn [dec_write].
+      assert (FS : Forall wf_entry (node_stream nd2)).
+      { rewrite Hs. apply Forall_skipn. apply Forall_app. split; [rewrite E; assumption|].
+        constructor; [apply wf_new|constructor]. }
+      split; [congruence|]. split; [congruence|]. split; [apply Ew; assumption|].
+      split; [apply stream_ok_wf; assumption|]. split; [rewrite Ee; assumption|].
+      split; [assumption|]. split; [assumption|]. split; [congruence|].
+      split; [rewrite map_rev in Hscan; assumption|].
+      exists ms, sq, (n_now nd1 / 1000), k. split; [rewrite Hs, E; reflexivity|].
+      intro H0. apply Hk. congruence.
+  - exfalso. apply Hb. reflexivity.
+  - destruct (Hr v eq_refl) as [m ->]. cbn [fst snd val_to_reply].
+    apply not_written_post; auto. apply dec_write_err.
+  - cbn [fst snd]. apply not_written_post; auto. cbn. discriminate.
+Qed.
